@@ -43,6 +43,9 @@ func main() {
 		vroot = "/verif"
 	}
 	root, out := "/repo", vroot+"/.build/instr"
+	if v := os.Getenv("VERIF_REPO"); v != "" {
+		root = v
+	}
 	os.RemoveAll(out)
 	must(os.MkdirAll(out, 0o755))
 	overlay := map[string]string{}
